@@ -210,4 +210,31 @@ def Shear6.fromV3 {α : Type} [OfNat α 0] (a : V3 α) : ((Shear6 α) × (Shear6
 def Shear6.ctor3 {α : Type} [OfNat α 0] (a : V3 α) : (Shear6 α) :=
   ⟨a.x, a.y, a.z, (0 : α), (0 : α), (0 : α)⟩
 
+/-- extracted from the C++ template at T = Sym; 1 path(s) -/
+def Shear6.narrowCtor {α : Type} {β : Type} (cast : β → α) (a : Shear6 β) : (Shear6 α) :=
+  ⟨(cast a.xy), (cast a.xz), (cast a.yz), (cast a.yx), (cast a.zx), (cast a.zy)⟩
+
+/-- extracted from the C++ template at T = Sym; 1 path(s) -/
+def Shear6.narrowSetValueV {α : Type} {β : Type} (cast : β → α) (a : Shear6 α) (b : Shear6 β) : (Shear6 α) :=
+  ⟨(cast b.xy), (cast b.xz), (cast b.yz), (cast b.yx), (cast b.zx), (cast b.zy)⟩
+
+/-- extracted from the C++ template at T = Sym; 1 path(s) -/
+def Shear6.narrowGetValueV {α : Type} {β : Type} (cast : β → α) (a : Shear6 β) (b : Shear6 α) : (Shear6 α) :=
+  ⟨(cast a.xy), (cast a.xz), (cast a.yz), (cast a.yx), (cast a.zx), (cast a.zy)⟩
+
+/-- extracted from the C++ template at T = Sym; 1 path(s) -/
+def Shear6.narrowSetValueS {α : Type} {β : Type} (cast : β → α) (a : Shear6 α) (b : Shear6 β) : (Shear6 α) :=
+  ⟨(cast b.xy), (cast b.xz), (cast b.yz), (cast b.yx), (cast b.zx), (cast b.zy)⟩
+
+/-- extracted from the C++ template at T = Sym; 1 path(s) -/
+def Shear6.narrowGetValueS {α : Type} {β : Type} (cast : β → α) (a : Shear6 β) (b : Shear6 α) : (Shear6 α) :=
+  ⟨(cast a.xy), (cast a.xz), (cast a.yz), (cast a.yx), (cast a.zx), (cast a.zy)⟩
+
+/-- extracted from the C++ template at T = Sym; 1 path(s) -/
+def Shear6.narrowFromV3 {α : Type} {β : Type} [OfNat α 0] (cast : β → α) (a : V3 β) (t : Shear6 α) : ((Shear6 α) × (Shear6 α)) :=
+  let t665 := (cast a.x)
+  let t666 := (cast a.y)
+  let t669 := (cast a.z)
+  (⟨t665, t666, t669, (0 : α), (0 : α), (0 : α)⟩, ⟨t665, t666, t669, (0 : α), (0 : α), (0 : α)⟩)
+
 end ImathVerif.Gen
